@@ -35,6 +35,7 @@ import (
 	epochstypes "github.com/ExocoreNetwork/exocore/x/epochs/types"
 	exominttypes "github.com/ExocoreNetwork/exocore/x/exomint/types"
 	distrtypes "github.com/ExocoreNetwork/exocore/x/feedistribution/types"
+	delegationkeeper "github.com/ExocoreNetwork/exocore/x/delegation/keeper"
 	operatortypes "github.com/ExocoreNetwork/exocore/x/operator/types"
 	oraclekeeper "github.com/ExocoreNetwork/exocore/x/oracle/keeper"
 )
@@ -297,6 +298,11 @@ type distrHistCfg struct {
 	secondAVS *secondAVSCfg
 }
 
+type distrDeleg struct {
+	st     Actor
+	ai, oi int
+}
+
 type secondAVSCfg struct {
 	addr       string
 	assetIdx   []int
@@ -381,6 +387,8 @@ type distrRunner struct {
 	// statistics
 	distrEpochs, mintEpochs, stakerPaid int
 	zeroPowerEpochs                      int
+	emptyListEpochs, zeroStakerEpochs    int // distribution epochs with a validator whose staker list is empty / all-zero
+	nonce                                uint64
 	restorePower                         bool
 	savedPower                           *sdkmath.Int // LastTotalPower before zeroTotalPower, restored after the next distribution epoch
 	f17aSeen                             bool
@@ -452,6 +460,17 @@ func (r *distrRunner) block(d time.Duration) bool {
 		}
 	}
 	r.distrEpochs += distrEnded
+	if distrEnded > 0 && total != 0 {
+		e, z := emptyStakerLists(vals)
+		if e > 0 {
+			r.emptyListEpochs++
+			env.Note("epochs-with-empty-staker-list")
+		}
+		if z > 0 {
+			r.zeroStakerEpochs++
+			env.Note("epochs-with-zero-power-stakers")
+		}
+	}
 	r.mintEpochs += mintEnded
 	// ---------------- monitors on the real state
 	// (1) supply changes only by the mint, exactly once per mint-epoch end
@@ -601,6 +620,8 @@ func domDistribution(env *Env) error {
 	distrScenarioF17a(env)
 	distrScenarioF17b(env)
 	distrScenarioZeroPower(env)
+	distrScenarioEmptyStakers(env)
+	distrScenarioSlashedToZero(env)
 
 	ids := []string{epochstypes.DayEpochID, epochstypes.HourEpochID, epochstypes.MinuteEpochID, epochstypes.WeekEpochID} // store (alphabetical) order
 	powerChoices := []int64{100, 101, 150, 1000, 4999}
@@ -674,6 +695,7 @@ func domDistribution(env *Env) error {
 		r.start(fmt.Sprintf("random-%d", hi))
 		nb := 8 + rng.Intn(maxBlocks)
 		nStakers := 0
+		var delegs []distrDeleg
 		for b := 0; b < nb; b++ {
 			// fee income
 			for k := rng.Intn(3); k > 0; k-- {
@@ -714,8 +736,28 @@ func domDistribution(env *Env) error {
 				oi := rng.Intn(cfg.NOperators)
 				amt := new(big.Int).Add(rng.BigBelow(new(big.Int).Mul(big.NewInt(5000), pow10(int(cfg.Assets[ai].Decimals)))), big.NewInt(1))
 				err := distrDepositDelegate(c, st, ai, oi, amt)
+				if err == nil {
+					delegs = append(delegs, distrDeleg{st, ai, oi})
+				}
 				env.Outcome(fmt.Sprintf("delegate:%v", err == nil))
 				r.op(fmt.Sprintf("distr.note delegate staker=%s asset=%d op=%d amt=%s ok=%v", st.Eth.Hex(), ai, oi, amt, err == nil), "ok")
+			}
+			// undelegate everything of some delegation (the operator's own genesis self-delegation
+			// included): staker lists shrink to empty while the validator keeps its power
+			if rng.Chance(1, 10) {
+				if len(delegs) > 0 && rng.Chance(1, 2) {
+					dl := delegs[rng.Intn(len(delegs))]
+					r.undelegateAll(dl.st, dl.ai, dl.oi)
+				} else {
+					oi := rng.Intn(cfg.NOperators)
+					r.undelegateAll(c.Operators[oi], 0, oi)
+				}
+			}
+			if rng.Chance(1, 25) {
+				r.jail(rng.Intn(cfg.NOperators), rng.Chance(2, 3))
+			}
+			if rng.Chance(1, 30) {
+				r.slash(rng.Intn(cfg.NOperators), []int64{100, 100, 50, 7}[rng.Intn(4)])
 			}
 			// block time step
 			var d time.Duration
@@ -757,9 +799,146 @@ func domDistribution(env *Env) error {
 		if hi < 2 {
 			env.Sample(strings.Join(r.hist[:min(len(r.hist), 12)], " ; "))
 		}
-		env.Outcome(fmt.Sprintf("history:distr>0=%v,mint>0=%v,stakerpaid>0=%v,zeropower>0=%v", r.distrEpochs > 0, r.mintEpochs > 0, r.stakerPaid > 0, r.zeroPowerEpochs > 0))
+		env.Outcome(fmt.Sprintf("history:distr>0=%v,mint>0=%v,stakerpaid>0=%v,zeropower>0=%v,emptylist>0=%v,zerostakers>0=%v", r.distrEpochs > 0, r.mintEpochs > 0, r.stakerPaid > 0, r.zeroPowerEpochs > 0, r.emptyListEpochs > 0, r.zeroStakerEpochs > 0))
 	}
 	return nil
+}
+
+
+// distrUndelegateAll undelegates the whole delegation of `staker` (asset assetIdx) from operator
+// opIdx: its share becomes zero and x/delegation removes it from the operator's staker list.
+func distrUndelegateAll(c *Chain, staker Actor, assetIdx, opIdx int, nonce uint64) (string, error) {
+	assetAddr := common.HexToAddress(c.Cfg.Assets[assetIdx].Addr)
+	assetID := c.AssetIDs[assetIdx]
+	op := c.Operators[opIdx].Acc
+	di, err := c.App.DelegationKeeper.GetSingleDelegationInfo(c.Ctx, StakerIDOf(c.LzID, staker.Eth), assetID, op.String())
+	if err != nil {
+		return "0", err
+	}
+	oa, err := c.App.AssetsKeeper.GetOperatorSpecifiedAssetInfo(c.Ctx, op, assetID)
+	if err != nil {
+		return "0", err
+	}
+	amt, err := delegationkeeper.TokensFromShares(di.UndelegatableShare, oa.TotalShare, oa.TotalAmount)
+	if err != nil || !amt.IsPositive() {
+		return "0", fmt.Errorf("nothing to undelegate")
+	}
+	return amt.String(), c.CachedDo(func(ctx sdk.Context) error {
+		return c.App.DelegationKeeper.UndelegateFrom(ctx, &delegationtypes.DelegationOrUndelegationParams{
+			ClientChainID: c.LzID, Action: assetstypes.UndelegateFrom, AssetsAddress: assetAddr.Bytes(),
+			OperatorAddress: op, StakerAddress: staker.Eth.Bytes(), OpAmount: amt,
+			LzNonce: nonce, TxHash: common.BigToHash(new(big.Int).SetUint64(nonce + 7000)),
+		})
+	})
+}
+
+func (r *distrRunner) undelegateAll(staker Actor, assetIdx, opIdx int) bool {
+	r.nonce++
+	amt, err := distrUndelegateAll(r.c, staker, assetIdx, opIdx, r.nonce)
+	r.env.Outcome(fmt.Sprintf("undelegate-all:%v", err == nil))
+	r.op(fmt.Sprintf("distr.note undelegate-all staker=%s asset=%d op=%d amt=%s ok=%v", staker.Eth.Hex(), assetIdx, opIdx, amt, err == nil), "ok")
+	return err == nil
+}
+
+// jail marks the operator jailed for the dogfood AVS (its stakers then have zero power).
+func (r *distrRunner) jail(opIdx int, jailed bool) {
+	c := r.c
+	_ = c.CachedDo(func(ctx sdk.Context) error {
+		c.App.OperatorKeeper.SetJailedState(ctx, c.ConsKeys[opIdx].ToConsAddr(), c.ChainIDNR, jailed)
+		return nil
+	})
+	r.env.Outcome(fmt.Sprintf("jail:%v", jailed))
+	r.op(fmt.Sprintf("distr.note jail op=%d jailed=%v", opIdx, jailed), "ok")
+}
+
+// slash cuts every pool of the operator by pct percent (100 = the stakers are slashed to zero).
+func (r *distrRunner) slash(opIdx int, pct int64) {
+	c := r.c
+	r.nonce++
+	// the executed proportion is min(1, Power x SlashProportion / operator value)
+	power := c.Cfg.Powers[opIdx]
+	if pct >= 100 {
+		power = 1000000000
+	}
+	p := &operatortypes.SlashInputInfo{IsDogFood: true, Power: power, SlashType: 1, Operator: c.Operators[opIdx].Acc, AVSAddr: c.AVSAddr,
+		SlashContract: "", SlashID: fmt.Sprintf("distr-%d", r.nonce), SlashEventHeight: c.Ctx.BlockHeight(),
+		SlashProportion: sdkmath.LegacyNewDecWithPrec(pct, 2)}
+	err := c.CachedDo(func(ctx sdk.Context) error { return c.App.OperatorKeeper.Slash(ctx, p) })
+	r.env.Outcome(fmt.Sprintf("slash:%v", err == nil))
+	r.op(fmt.Sprintf("distr.note slash op=%d pct=%d ok=%v", opIdx, pct, err == nil), "ok")
+}
+
+// emptyStakerLists counts the found validators whose operator has no staker occurrence at all /
+// only occurrences of zero power in the view AllocateTokens will read.
+func emptyStakerLists(vals []distrValIn) (empty, zero int) {
+	for _, v := range vals {
+		if !v.Found || v.Power <= 0 {
+			continue
+		}
+		if len(v.Occ) == 0 {
+			empty++
+			continue
+		}
+		all0 := true
+		for _, o := range v.Occ {
+			if o.Power.Sign() != 0 {
+				all0 = false
+			}
+		}
+		if all0 {
+			zero++
+		}
+	}
+	return
+}
+
+// distrScenarioEmptyStakers: validators that keep their voting power (the validator set changes
+// only at the weekly staking epoch here) while (a) the only staker of operator 0 undelegates
+// everything, so the operator's staker list is empty, (b) operator 1 is jailed, so its stakers
+// have zero power: at every minute distribution epoch the staker part of their portions must go
+// to the community pool (claims = amount moved).
+func distrScenarioEmptyStakers(env *Env) {
+	cfg := DefaultCfg(env.Report.Seed*1000 + 903)
+	cfg.EpochID = epochstypes.WeekEpochID
+	h := &distrHistCfg{cfg: cfg, distrID: epochstypes.MinuteEpochID, mintID: epochstypes.HourEpochID, reward: big.NewInt(20),
+		tax: new(big.Int).Mul(big.NewInt(2), pow10(16)), rates: []*big.Int{new(big.Int).Mul(big.NewInt(5), pow10(16)), big.NewInt(0)}, shrink: map[string]time.Duration{}}
+	c := distrBoot(h)
+	r := &distrRunner{env: env, c: c, h: h}
+	r.start("scenario-empty-staker-list")
+	r.fee(big.NewInt(1000000))
+	ok := r.block(61 * time.Second) // ordinary epoch
+	und := r.undelegateAll(c.Operators[0], 0, 0)
+	for i := 0; i < 2 && ok; i++ {
+		r.fee(new(big.Int).Add(bigPrec, big.NewInt(int64(7+i))))
+		ok = r.block(61 * time.Second)
+	}
+	r.jail(1, true)
+	for i := 0; i < 2 && ok; i++ {
+		r.fee(big.NewInt(int64(999 + i)))
+		ok = r.block(61 * time.Second)
+	}
+	env.Report.Histories++
+	env.Outcome(fmt.Sprintf("scenario-empty-staker-list:undelegated=%v,empty-epochs=%d,zero-epochs=%d", und, r.emptyListEpochs, r.zeroStakerEpochs))
+}
+
+// distrScenarioSlashedToZero: the only staker of a validator is slashed to zero (100%) while the
+// validator keeps its power; distribution epochs keep running.
+func distrScenarioSlashedToZero(env *Env) {
+	cfg := DefaultCfg(env.Report.Seed*1000 + 904)
+	cfg.EpochID = epochstypes.WeekEpochID
+	h := &distrHistCfg{cfg: cfg, distrID: epochstypes.MinuteEpochID, mintID: epochstypes.DayEpochID, reward: big.NewInt(0),
+		tax: big.NewInt(0), rates: []*big.Int{big.NewInt(0), new(big.Int).Quo(bigPrec, big.NewInt(2))}, shrink: map[string]time.Duration{}}
+	c := distrBoot(h)
+	r := &distrRunner{env: env, c: c, h: h}
+	r.start("scenario-slashed-to-zero")
+	r.slash(0, 100)
+	ok := true
+	for i := 0; i < 3 && ok; i++ {
+		r.fee(big.NewInt(int64(500000 + i)))
+		ok = r.block(61 * time.Second)
+	}
+	env.Report.Histories++
+	env.Outcome(fmt.Sprintf("scenario-slashed-to-zero:empty-epochs=%d,zero-epochs=%d,ok=%v", r.emptyListEpochs, r.zeroStakerEpochs, ok))
 }
 
 // zeroTotalPower stores LastTotalPower = 0 through the dogfood keeper.
